@@ -198,8 +198,8 @@ Close Scope string_scope.
 
 (* ------------------------------------------------------------------------------------------------------------ *)
 (* text cleaning on ASCII text (text_cleaning/base.py SUPPORTED_OPERATIONS).  `normalize` = lower-casing + accent
-   stripping; on ASCII there is no accent, so it is lower-casing.  remove_urls / remove_stopwords / accents on
-   non-ASCII text are NOT specified here (compared across frameworks only).                                      *)
+   stripping; on ASCII there is no accent, so it is lower-casing.  remove_stopwords / accents on non-ASCII text are NOT specified here (compared
+   across frameworks only); remove_urls is specified on ASCII text (below).                                      *)
 Definition text := list ascii.
 Definition code (a : ascii) : nat := nat_of_ascii a.
 Definition between (lo hi n : nat) : bool := (lo <=? n)%nat && (n <=? hi)%nat.
@@ -230,9 +230,57 @@ Fixpoint join_sp (ws : list text) : text :=
 (* " ".join(s.split()) *)
 Definition norm_ws (s : text) : text := join_sp (words s).
 
-Inductive cleanop := CNormalize | CPunct | CSpecial | CWhite.
+(* ---- remove_urls: "remove URLs and e-mail addresses", token by token (a token = a maximal run of non-whitespace
+   characters; all whitespace stays where it is):
+     1. a URL starts inside the token at the first place where `http://`, `https://` or `www.` is followed by at least
+        one more character of the token; the token is cut there (the part before the URL stays: `see:http://x` -> `see:`;
+        a bare `www.` / `http://` with nothing after it is not a URL);
+     2. what is left of the token is dropped entirely if it is an e-mail address x@y.z with x, y, z non-empty.
+   The ORDER matters when both overlap in one token: `admin@www.example.com` -> `admin@` (the URL goes first, the rest
+   is no address).  base.py only says "Remove URLs and email addresses"; this two-step reading is what BOTH
+   implementations compute on the unchanged tree (theorems C19_remove_urls_...). *)
+Fixpoint strip_prefix (p s : text) : option text :=
+  match p, s with
+  | [], _ => Some s
+  | a :: p', b :: s' => if Ascii.eqb a b then strip_prefix p' s' else None
+  | _ :: _, [] => None
+  end.
+(* p occurs somewhere in s *)
+Fixpoint has_sub (p s : text) : bool :=
+  match strip_prefix p s with Some _ => true | None => match s with [] => false | _ :: t => has_sub p t end end.
+Definition nonempty (o : option text) : bool := match o with Some (_ :: _) => true | _ => false end.
+Definition lit (s : string) : text := list_ascii_of_string s.
+Definition url_head (w : text) : bool :=
+  nonempty (strip_prefix (lit "http://") w) || nonempty (strip_prefix (lit "https://") w)
+  || nonempty (strip_prefix (lit "www.") w).
+Fixpoint url_cut (w : text) : text :=
+  match w with [] => [] | a :: t => if url_head w then [] else a :: url_cut t end.
+Definition ch_at : ascii := ascii_of_nat 64.
+Definition ch_dot : ascii := ascii_of_nat 46.
+(* u holds a `.` with at least one character after it *)
+Fixpoint dot_in (u : text) : bool :=
+  match u with [] => false | d :: v => (Ascii.eqb d ch_dot && match v with [] => false | _ => true end) || dot_in v end.
+(* r = y ++ "." ++ z with y, z non-empty *)
+Definition dot_mid (r : text) : bool := match r with [] => false | _ :: u => dot_in u end.
+(* r holds an `@` followed by y.z *)
+Fixpoint at_in (r : text) : bool :=
+  match r with [] => false | c :: u => (Ascii.eqb c ch_at && dot_mid u) || at_in u end.
+(* w = x ++ "@" ++ y ++ "." ++ z with x, y, z non-empty *)
+Definition is_email (w : text) : bool := match w with [] => false | _ :: r => at_in r end.
+Definition email_keep (w : text) : text := if is_email w then [] else w.
+Definition clean_token (w : text) : text := email_keep (url_cut w).
+(* apply f to every token, keep the whitespace (cur = current token, reversed) *)
+Fixpoint map_tokens (f : text -> text) (cur : text) (s : text) : text :=
+  match s with
+  | [] => f (rev cur)
+  | a :: t => if is_ws a then f (rev cur) ++ a :: map_tokens f [] t else map_tokens f (a :: cur) t
+  end.
+Definition remove_urls (s : text) : text := map_tokens clean_token [] s.
+
+Inductive cleanop := CNormalize | CPunct | CSpecial | CWhite | CUrls.
 Definition clean_spec (o : cleanop) (s : text) : text :=
-  match o with CNormalize => lower s | CPunct => remove_punct s | CSpecial => remove_special s | CWhite => norm_ws s end.
+  match o with CNormalize => lower s | CPunct => remove_punct s | CSpecial => remove_special s | CWhite => norm_ws s
+          | CUrls => remove_urls s end.
 Definition clean_pipeline (ops : list cleanop) (s : text) : text := fold_left (fun acc o => clean_spec o acc) ops s.
 (* a null cell is the empty text *)
 Definition clean_cell (ops : list cleanop) (x : option text) : text :=
@@ -244,5 +292,6 @@ Definition clean_vocab : list string :=
 Definition cleanop_of_name (s : string) : option cleanop :=
   if String.eqb s "normalize" then Some CNormalize else if String.eqb s "remove_punctuation" then Some CPunct
   else if String.eqb s "remove_special_chars" then Some CSpecial
-  else if String.eqb s "normalize_whitespace" then Some CWhite else None.
+  else if String.eqb s "normalize_whitespace" then Some CWhite
+  else if String.eqb s "remove_urls" then Some CUrls else None.
 Close Scope string_scope.
